@@ -17,11 +17,15 @@ PID = 'C20'
 _MISSING = object()
 # the importing thread's slot exactly as the import of pykoop left it (normally absent;
 # a module-level initialisation would show up here and is restored, not erased, by reset)
-_MAIN_INITIAL = cfgmod._threadlocal.__dict__.get('global_config', _MISSING)
+_MAIN_INITIAL = cfgmod._threadlocal.__dict__.get('global_config', _MISSING) if hasattr(cfgmod, '_threadlocal') else _MISSING
 
 
 def reset_config():
     """state of a fresh process right after `import pykoop`, for the main thread and the default"""
+    if not (hasattr(cfgmod, '_threadlocal') and hasattr(cfgmod, '_global_config')):
+        # the configuration store is not the one the harness knows: only the public API is left
+        pykoop.set_config(skip_validation=False)
+        return
     cfgmod._global_config['skip_validation'] = False
     if _MAIN_INITIAL is _MISSING:
         if 'global_config' in cfgmod._threadlocal.__dict__:
